@@ -207,18 +207,31 @@ def run(ctx):
     def mm(k):
         return om.gate_edges(lambda atom, pol: om.N(atom)['k'] == 'BinaryOperator' and om.N(atom).get('op') == '==' and om.const_value(om.N(atom)['ch'][1]) == k and
                              model.strip_targs(om.ref_of(om.N(atom)['ch'][0]) or '').endswith('option::match_method_') and pol is True)
-    # exact-method branch: a success return reached through match_method_==1 also passed method_ != method == false and method != 0
-    g1 = mm(1)
+    # the mode constants are read off the constructors (writer side) and must be the ones matches() tests (reader side)
+    octs = [f for f in P.fns.values() if f.kind == 'ctor' and (f.record or '').endswith('::option') and f.file.endswith('/src/url_dispatcher.cpp') and f.body is not None]
+    mode_of = {}
+    for f in octs:
+        for x in f.d.get('inits', []):
+            if model.strip_targs(x.get('field', '')).endswith('option::match_method_'):
+                mode_of[len(f.params)] = f.const_value(x['n'])
+    W0, W1 = mode_of.get(1), mode_of.get(2)
+    W2s = set(f.const_value(f.N(w)['ch'][1]) for f in octs if len(f.params) == 2 for w in q.field_writes(f, 'option::match_method_') if f.N(w)['k'] == 'BinaryOperator')
+    W2 = list(W2s)[0] if len(W2s) == 1 else None
+    ctx.check(None not in (W0, W1, W2) and len({W0, W1, W2}) == 3, R3, 'option:three-distinct-modes', 'the constructors do not establish three distinct filter modes (no filter %r, literal %r, expression %r)' % (W0, W1, W2), om.where)
+    tested = set(om.const_value(om.N(a_)['ch'][1]) for a_ in om.all_nodes() if om.N(a_)['k'] == 'BinaryOperator' and om.N(a_).get('op') in ('==', '!=') and
+                 model.strip_targs(om.ref_of(om.N(a_)['ch'][0]) or '').endswith('option::match_method_'))
+    ctx.check(W0 not in tested and tested <= {W1, W2}, R3, 'matches:modes-tested-are-the-modes-set', 'matches() tests modes %s, the constructors set no-filter=%r literal=%r expression=%r' % (sorted(x for x in tested if x is not None), W0, W1, W2), om.where)
+    g1 = mm(W1)
     g_same = om.gate_edges(lambda atom, pol: om.N(atom)['k'] == 'CXXOperatorCallExpr' and om.N(atom).get('op') in ('!=', '==') and methp in om.subtree_refs(atom) and
                            any(model.strip_targs(r).endswith('option::method_') for r in om.subtree_refs(atom)) and ((om.N(atom)['op'] == '!=' and pol is False) or (om.N(atom)['op'] == '==' and pol is True)))
     g_rx = q.call_gate(om, lambda i: om.bcallee(i) == 'booster::regex_match' and any(model.strip_targs(r).endswith('option::mexpr_') for r in om.subtree_refs(i)), True)
-    ctx.check(bool(g1) and bool(g_same) and bool(g_rx), R3, 'matches:method-filters-present', 'method filter branches not found', om.where)
+    ctx.check(bool(g1) and bool(mm(W2)) and bool(g_same) and bool(g_rx), R3, 'matches:method-filters-present', 'method filter branches not found', om.where)
     for r in succ:
         # from each method-mode edge, the success return is reachable only through the corresponding filter
         for (b, s, lab, tag) in g1:
             reach = om.reachable_blocks(start=s, cut_edges=g_same)
             ctx.check(om.point_of(r)[0] not in reach, R3, 'matches:exact-method-filter-passed', 'rule with an exact method matches another method', om.where)
-        for (b, s, lab, tag) in mm(2):
+        for (b, s, lab, tag) in mm(W2):
             reach = om.reachable_blocks(start=s, cut_edges=g_rx)
             ctx.check(om.point_of(r)[0] not in reach, R3, 'matches:regex-method-filter-passed', 'rule with a method expression matches without testing it', om.where)
 
@@ -352,7 +365,7 @@ def run(ctx):
 
     # ---------------- R5
     ehs = [f for f in P.fns.values() if f.short == 'execute_handler' and 'base_handler' in (f.record or '')]
-    ctx.require(len(ehs) >= 8, 'C20.R5: execute_handler overloads not instantiated (%d)' % len(ehs))
+    pending_broken = [] if len(ehs) >= 8 else ['C20.R5: execute_handler overloads not instantiated (%d)' % len(ehs)]
     done = set()
     for f in sorted(ehs, key=lambda g: g.id):
         pt = f.types[f.params[0]['t']]
@@ -388,6 +401,175 @@ def run(ctx):
         ok = len(mn) == 1 and any(model.strip_targs(r).endswith('mounted::select_') for r in f.subtree_refs(mn[0])) and any(model.strip_targs(r).endswith('option::match_') for r in f.subtree_refs(mn[0]))
         g = q.call_gate(f, lambda i: (f.bcallee(i) or '').endswith('option::matches'), True)
         ctx.check(ok and f.only_through(mn[0], g), R5, 'mounted::dispatch:passes-selected-group-after-match', 'mounted application gets a different group / runs without a match', f.where)
+
+    # ---------------- R8 dispatch overriders, registration, selectors, request method
+    R8 = ctx.rule('C20.R8', 'dispatcher plumbing: every option::dispatch overrider runs its handler exactly when matches(url, method) held and reports that verdict (generic: the handler\'s own verdict); every registration '
+                            'function appends exactly one option built from its own arguments, selectors in order; the base_handler constructor stores selector k in select_[k]; url_dispatcher::dispatch hands every option '
+                            'the url, the request method of the application\'s context (none without a context) and the application')
+    dvs = sorted([f for f in P.fns.values() if f.short == 'dispatch' and f.file.endswith('/src/url_dispatcher.cpp') and (f.record or '').split('<')[0].endswith(('::mounted', '::base_handler', '::generic_option'))], key=lambda g: g.id)
+    ctx.require(len(dvs) >= 3 or ctx.violations, 'C20.R8: option::dispatch overriders not found (%d)' % len(dvs))
+    seen8 = set()
+    for f in dvs:
+        kind = (f.record or '').split('<')[0].rsplit('::', 1)[-1]
+        mcs = [i for i in f.calls() if (f.bcallee(i) or '').endswith('option::matches')]
+        ok = len(mcs) == 1 and [f.ref_of(x) for x in f.args(mcs[0])] == [q.param_by_index(f, 0), q.param_by_index(f, 1)]
+        why = 'matches(url, method) is not asked exactly once about the arguments of dispatch'
+        if ok:
+            g_t = q.call_gate(f, lambda i: i == mcs[0], True)
+            g_f = q.call_gate(f, lambda i: i == mcs[0], False)
+            if kind == 'mounted':
+                hs = [i for i in f.calls() if f.bcallee(i) == 'cppcms::application::main']
+            elif kind == 'base_handler':
+                hs = [i for i in f.calls() if q.short_of(f.callee(i) or '') == 'execute_handler']
+            else:
+                hs = [i for i in f.calls() if f.N(i)['k'] == 'CXXOperatorCallExpr' and f.N(i).get('op') == '()' and model.strip_targs(f.ref_of(f.N(i)['ch'][1]) or '').endswith('::handle_')]
+            rets = [i for i in f.returns() if f.ret_value(i) is not None]
+            r_true = [i for i in rets if f.const_value(f.ret_value(i)) == 1 or any(h_ in set(f.walk(i)) for h_ in hs)]
+            r_false = [i for i in rets if f.const_value(f.ret_value(i)) == 0]
+            ok = len(hs) == 1 and bool(g_t) and bool(g_f) and q.always_before_exit(f, rets) and f.only_through(hs[0], g_t) and bool(r_true) and all(f.only_through(i, g_t) for i in r_true) and len(r_true) + len(r_false) == len(rets)
+            why = 'the handler runs / success is reported without matches() having held'
+            if ok:
+                # after a successful match every path runs the handler, and no path reports success without it
+                reach = f.reachable_blocks(cut_edges=g_t)
+                ok = all(f.point_of(i)[0] not in reach or f.only_through(i, g_t) for i in r_true)
+                for (b_, s_, lab_, tag_) in g_t:
+                    rb = f.reachable_blocks(start=s_, cut_blocks=[f.point_of(hs[0])[0]])
+                    if kind == 'generic_option':
+                        continue
+                    if any(f.point_of(i)[0] in rb for i in rets) or f.exit in rb:
+                        ok, why = False, 'after a successful match a path leaves dispatch without running the handler'
+                for (b_, s_, lab_, tag_) in g_f:
+                    rb = f.reachable_blocks(start=s_)
+                    if any(f.point_of(i)[0] in rb for i in r_true) or f.point_of(hs[0])[0] in rb:
+                        ok, why = False, 'a failed match still runs the handler or reports success'
+            if ok and kind == 'generic_option':
+                a_ = f.N(hs[0])['ch'][2:]
+                appp = q.param_by_index(f, 2)
+                g_app = f.gate_edges(lambda atom, pol: f.ref_of(atom) == appp and pol is True) + f.gate_edges(
+                    lambda atom, pol: f.N(atom)['k'] == 'BinaryOperator' and f.N(atom).get('op') in ('==', '!=') and appp in f.subtree_refs(atom) and f.const_value(f.N(atom)['ch'][1]) == 0 and pol is (f.N(atom)['op'] == '!='))
+                ok = len(a_) == 2 and appp in f.subtree_refs(a_[0]) and any(model.strip_targs(x).endswith('option::match_') for x in f.subtree_refs(a_[1])) and bool(g_app) and f.only_through(hs[0], g_app)
+                why = 'the generic handler is not called with (*app, match_) for a non-null application'
+        key = '%s::dispatch:handler-iff-match' % kind
+        if key in seen8 and ok:
+            continue
+        seen8.add(key)
+        ctx.check(ok, R8, key, why, f.where)
+    # base_handler constructor: selector k -> select_[k]   (E3 on the constructor body)
+    bcs = sorted([f for f in P.fns.values() if f.kind == 'ctor' and 'base_handler' in (f.record or '') and f.body is not None and len(f.params) == 8], key=lambda g: g.id)
+    ctx.require(bool(bcs) or ctx.violations, 'C20.R8: base_handler constructors not instantiated')
+    from vlib import absint as _ai8
+    okb, whyb = bool(bcs), ''
+    for f in bcs:
+        fld = [x for x in set(f.N(i).get('ref') for i in f.all_nodes() if f.N(i)['k'] == 'MemberExpr') if x and model.strip_targs(x).endswith('::select_')]
+        if len(fld) != 1:
+            okb, whyb = False, 'select_ is not written by the constructor'
+            break
+        it = _ai8.Interp(P, [])
+        arr = _ai8.Arr([_ai8.AV.const(-1)] * 6, 'select_')
+        it.fields = {fld[0]: _ai8.Cell(arr)}
+        try:
+            it.call_fn(f, [_ai8.AV.const(0), _ai8.AV.const(0)] + [_ai8.AV.const(11 + k) for k in range(6)])
+        except _ai8.Unsupported as e:
+            raise AnalysisBroken('C20.R8: base_handler constructor: %s' % e)
+        got = [e.lo for e in arr.elems]
+        if got != [11 + k for k in range(6)]:
+            okb, whyb = False, 'selectors (a..f) = 11..16 are stored as %s' % got
+            break
+        hi_ = [x for x in f.d.get('inits', []) if model.strip_targs(x.get('field', '')).endswith('::handle_')]
+        bi_ = [x for x in f.d.get('inits', []) if 'option' in (x.get('base') or '')]
+        if not (hi_ and q.param_by_index(f, 1) in f.subtree_refs(hi_[0]['n']) and bi_ and q.param_by_index(f, 0) in f.subtree_refs(bi_[0]['n'])):
+            okb, whyb = False, 'expression / handler are not the constructor arguments'
+            break
+    ctx.check(okb, R8, 'base_handler:selector-k-stored-in-select_[k]', whyb, bcs[0].where if bcs else None, detail={'instantiations': len(bcs)})
+    mhs = sorted([f for f in P.fns.values() if f.short == 'make_handler' and f.body is not None], key=lambda g: g.id)
+    okm = bool(mhs)
+    for f in mhs:
+        news = [i for i in f.all_nodes() if f.N(i)['k'] == 'CXXNewExpr']
+        ce = [j for i in news for j in f.walk(i) if f.N(j)['k'] == 'CXXConstructExpr' and 'base_handler' in (f.N(j).get('callee') or '')]
+        want = [q.param_by_index(f, k) for k in range(8)]
+        okm = okm and len(news) == 1 and len(ce) == 1 and [[p_ for p_ in want if p_ in f.subtree_refs(x)] for x in f.N(ce[0])['ch']] == [[p_] for p_ in want] and \
+            any(news[0] in set(f.walk(i)) for i in f.returns())
+    ctx.check(okm, R8, 'make_handler:arguments-in-order', 'make_handler does not return new base_handler(expr, handler, a..f) with its arguments in order', mhs[0].where if mhs else None, detail={'instantiations': len(mhs)})
+    regs = sorted([f for f in P.fns.values() if (f.record or '') == 'cppcms::url_dispatcher' and f.short in ('assign', 'assign_generic', 'map_generic', 'mount') and f.body is not None], key=lambda g: g.id)
+    ctx.require(len(regs) >= 11 or ctx.violations, 'C20.R8: url_dispatcher registration functions not found (%d)' % len(regs))
+    for f in regs:
+        pb = [i for i in f.calls() if q.short_of(f.callee(i) or '') in ('push_back', 'emplace_back') and any(model.strip_targs(x).endswith('_data::options') for x in f.subtree_refs(f.obj(i)))]
+        ok = len(pb) == 1 and q.always_before_exit(f, pb)
+        why = 'does not append exactly one option on every path'
+        if ok:
+            built = q.deep_refs(f, f.args(pb[0])[0])
+            want = [q.param_by_index(f, k) for k in range(len(f.params))]
+            mk = [i for i in q.expr_calls_deep(f, f.args(pb[0])[0]) if q.short_of(f.callee(i) or '') == 'make_handler' or f.N(i)['k'] == 'CXXConstructExpr' and any(t_ in (f.callee(i) or '') for t_ in ('mounted::mounted', 'generic_option::generic_option'))]
+            ok = set(want) <= set(built) and len(mk) == 1
+            why = 'the option is not built from all arguments of the registration call'
+            if ok and q.short_of(f.callee(mk[0]) or '') == 'make_handler':
+                a_ = [([p_ for p_ in want if p_ in f.subtree_refs(x)] + [None])[0] for x in f.args(mk[0]) if f.N(x)['k'] != 'CXXDefaultArgExpr']
+                ok = a_ == want and all(len([p_ for p_ in want if p_ in f.subtree_refs(x)]) == 1 for x in f.args(mk[0]) if f.N(x)['k'] != 'CXXDefaultArgExpr')
+                why = 'make_handler receives %s, the registration arguments are %s' % (a_, want)
+            elif ok and 'mounted::mounted' in (f.callee(mk[0]) or ''):
+                a_ = f.N(mk[0])['ch']
+                ok = len(a_) == 3 and want[0] in f.subtree_refs(a_[0]) and f.ref_of(a_[1]) == want[2] and want[1] in f.subtree_refs(a_[2])
+                why = 'mounted(match, select, &app) does not receive the registration arguments in these roles'
+            elif ok:
+                a_ = [x for x in f.N(mk[0])['ch'] if f.N(x)['k'] != 'CXXDefaultArgExpr']
+                names = [[p_['name'] for p_ in f.params if p_['ref'] in f.subtree_refs(x)] for x in a_]
+                g_ = P.fns.get(f.N(mk[0]).get('callee'))
+                ok = g_ is not None and len(a_) == len(g_.params) and all(len(n_) == 1 for n_ in names) and \
+                    all(('regex' in (g_.types[pp['t']] or '')) == ('regex' in (f.types[[p_ for p_ in f.params if p_['name'] == n_[0]][0]['t']] or '')) and
+                        ('function' in (g_.types[pp['t']] or '')) == ('function' in (f.types[[p_ for p_ in f.params if p_['name'] == n_[0]][0]['t']] or '')) for pp, n_ in zip(g_.params, names))
+                why = 'generic_option does not receive (method,) expression, handler in their roles'
+        ctx.check(ok, R8, '%s/%d:appends-one-option-built-from-its-arguments' % (f.short, len(f.params)), why, f.where)
+    gcs = [f for f in P.fns.values() if f.kind == 'ctor' and (f.record or '').endswith('::generic_option') and f.body is not None]
+    for f in sorted(gcs, key=lambda g: g.id):
+        bi_ = [x for x in f.d.get('inits', []) if 'option' in (x.get('base') or '')]
+        hi_ = [x for x in f.d.get('inits', []) if model.strip_targs(x.get('field', '')).endswith('::handle_')]
+        ok = bool(bi_) and bool(hi_)
+        if ok:
+            ba = [x for x in f.N(f.strip(bi_[0]['n']))['ch']] if f.N(f.strip(bi_[0]['n']))['k'] == 'CXXConstructExpr' else []
+            rx = [p_['ref'] for p_ in f.params if 'regex' in (f.types[p_['t']] or '')]
+            st_ = [p_['ref'] for p_ in f.params if 'basic_string' in (f.types[p_['t']] or '')]
+            hp = [p_['ref'] for p_ in f.params if 'function' in (f.types[p_['t']] or '')]
+            ok = len(rx) == 1 and len(hp) == 1 and len(ba) == 1 + len(st_) and rx[0] in f.subtree_refs(ba[0]) and (not st_ or st_[0] in f.subtree_refs(ba[1])) and hp[0] in f.subtree_refs(hi_[0]['n'])
+        ctx.check(ok, R8, 'generic_option/%d:expression-method-handler-in-their-roles' % len(f.params), 'the constructor does not hand (expression, method) to option and keep the handler', f.where)
+    ud = P.fn('cppcms::url_dispatcher::dispatch')
+    dc = [i for i in ud.calls() if (ud.bcallee(i) or '').endswith('option::dispatch')]
+    ok = len(dc) == 1
+    why = 'the options are not asked through option::dispatch'
+    if ok:
+        a_ = ud.args(dc[0])
+        mv, av = ud.ref_of(a_[1]), ud.ref_of(a_[2])
+        ok = ud.ref_of(a_[0]) == q.param_by_index(ud, 0) and (mv or '').startswith('v:') and (av or '').startswith('v:')
+        why = 'option::dispatch is not given (url, method, application)'
+        if ok:
+            g_ctx = q.call_gate(ud, lambda i: q.short_of(ud.callee(i) or '') == 'has_context', True)
+            mdefs = [(dn, val) for (dn, val) in ud.defs_of_var(mv) if val is not None]
+            live = [(dn, val) for (dn, val) in mdefs if ud.const_value(val) != 0]
+            def from_request(val):
+                if any(q.short_of(ud.callee(j) or '') == 'request_method' for j in q.expr_calls_deep(ud, val)):
+                    return True
+                for v_ in [x for x in ud.subtree_refs(val) if x.startswith('v:')]:
+                    asg = [i for i in ud.calls() if ud.N(i)['k'] == 'CXXOperatorCallExpr' and ud.N(i).get('op') == '=' and ud.ref_of(ud.N(i)['ch'][1]) == v_]
+                    if len(asg) == 1 and any(q.short_of(ud.callee(j) or '') == 'request_method' for j in ud.calls(ud.N(asg[0])['ch'][2])) and q.before(ud, asg[0], live[0][0]) and ud.only_through(asg[0], g_ctx):
+                        return True
+                return False
+            adefs = [(dn, val) for (dn, val) in ud.defs_of_var(av) if val is not None]
+            ok = len(live) == 1 and from_request(live[0][1]) and bool(g_ctx) and ud.only_through(live[0][0], g_ctx) and any(ud.const_value(val) == 0 for (dn, val) in mdefs) and \
+                any(any(model.strip_targs(x).endswith('_data::app') for x in q.deep_refs(ud, val)) for (dn, val) in adefs)
+            why = 'the method handed to the options is not the request method of the application\'s context (and none without a context)'
+            if ok:
+                # without a context neither the method nor the application is passed on
+                zero_app = [dn for (dn, val) in adefs if ud.const_value(val) == 0]
+                g_noctx = q.call_gate(ud, lambda i: q.short_of(ud.callee(i) or '') == 'has_context', False)
+                reach = ud.reachable_blocks(cut_blocks=[ud.point_of(z)[0] for z in zero_app] + [ud.point_of(live[0][0])[0]])
+                ok = bool(zero_app) and ud.point_of(dc[0])[0] not in reach
+                why = 'an application without a context is still handed to the options'
+    if ok:
+        ok = q.always_before_exit(ud, [i for i in ud.returns() if ud.ret_value(i) is not None])
+        why = 'a path leaves dispatch without a verdict'
+    ctx.check(ok, R8, 'url_dispatcher::dispatch:url-method-application-handed-on', why, ud.where)
+    ctx.floor(R8, 18)
+    if pending_broken and not ctx.violations:
+        raise AnalysisBroken(pending_broken[0])
 
     # ---------------- R6: URL generation passes same-named parameters straight through (no swapped roles)
     R6 = ctx.rule('C20.R6', 'url_mapper: a parameter handed to a callee that has a parameter of the same name is passed in that parameter\'s position')
